@@ -214,7 +214,7 @@ func notJudged(rec *ev.Rec, o1, o2 run.Outcome) bool {
 
 func TestCheck(t *testing.T) {
 	rec := ev.New("C14")
-	rec.Rule = "own generator on package gen's AST: 1-5 functions with shapes {closure over mutated cells, variadic, recursive (tail / non-tail / discarded, and self re-entry through CALL), throwing (throw values, builtin error constructors, failing operators), try/catch/finally incl. return inside try, importing (modules with load-time log and private state), globals read+write, returning closures, higher-order, nested CALL, caught Go panic (recover on)} called only through CALL(f, args...) with accepted argument counts from contexts {caught, uncaught, inside finally (also with a pending error), inside catch, loops, fresh loop closures, returned functions, direct calls interleaved}; x mode of the Go operator {pooled, unpooled, alternate, pooled-norelease, reuse2-pooled, reuse2-unpooled, reuse2-reacquire} x recover on/off x optimizer on/off x a plan of new/Acquire/Invoke/Release steps over 3 invoker slots executed from Go after vm.Run (in-script at the end of run 1). Stateful variant: rapid Repeat draws the plan step by step and after every step the Go side (per-invoke result + read-back through an Invoker) is compared with the in-script model of the plan so far. Non-trivial = >= 1 Go-side Invoke of a closure/variadic/throwing/importing function (identified by function value) and >= 1 child VM observed (pointer identity via Call.VM() in L) running under >= 2 different Invokers/acquisitions, i.e. a recycled pooled VM; distinct by source + mode + plan"
+	rec.Rule = "own generator on package gen's AST: 1-5 functions with shapes {closure over mutated cells, variadic, recursive (tail / non-tail / discarded, and self re-entry through CALL), throwing (throw values, builtin error constructors, failing operators), try/catch/finally incl. return inside try, importing (modules with load-time log and private state), globals read+write, returning closures, higher-order, nested CALL, caught Go panic (recover on)} called only through CALL(f, args...) with accepted argument counts from contexts {caught, uncaught, inside finally (also with a pending error), inside catch, loops, fresh loop closures, returned functions, functions exported by modules, direct calls interleaved}; x mode of the Go operator {pooled, unpooled, alternate, pooled-norelease, reuse2-pooled, reuse2-unpooled, reuse2-reacquire} x recover on/off x optimizer on/off x history of the process-wide VM pool before run 2 {none, children ended by Abort, by an escaping Go panic, by an error} x a plan of new/Acquire/Invoke/Release steps over 3 invoker slots executed from Go after vm.Run (in-script at the end of run 1). Stateful variant: rapid Repeat draws the plan step by step and after every step the Go side (per-invoke result + read-back through an Invoker) is compared with the in-script model of the plan so far. Non-trivial = >= 1 Go-side Invoke of a closure/variadic/throwing/importing function (identified by function value) and >= 1 child VM observed (pointer identity via Call.VM() in L) running under >= 2 different Invokers/acquisitions, i.e. a recycled pooled VM; distinct by source + mode + plan"
 	rec.Assumptions = []string{
 		"only accepted argument counts are passed (Go-side calls are lenient for wrong counts: out of scope)",
 		"single goroutine per VM: the Invoker is never used concurrently",
